@@ -38,11 +38,13 @@ Stages ==
            : st.labels # <<>> \/ st.matchers # <<>>}
   \cup {[t |-> "decolorize"]}
 SGR(p) == <<27, 91>> \o p \o <<109>>
-Lines == { <<112>>, SGR(<<51, 49>>) \o <<114>> \o SGR(<<48>>), <<120>> \o SGR(<<49, 59, 51, 50>>) \o <<121>>, SGR(<<>>), <<91, 51, 49, 109>>, <<>> }
+SGR8(p) == <<194, 155>> \o p \o <<109>>                     \* 8-bit CSI (U+009B) form of the same sequence
+Lines == { <<112>>, SGR(<<51, 49>>) \o <<114>> \o SGR(<<48>>), <<120>> \o SGR(<<49, 59, 51, 50>>) \o <<121>>, SGR(<<>>), <<91, 51, 49, 109>>, <<>>,
+           SGR8(<<51, 49>>) \o <<114>> \o SGR8(<<48>>), <<120>> \o SGR8(<<49, 59, 51, 50>>) \o SGR(<<48>>), <<194, 155>> }
 
 VARIABLES L, line, stage, pc
 vars == <<L, line, stage, pc>>
-Init == L \in [Names3 -> Vals \cup {<<255>>}] /\ line \in (IF Pools = "full" THEN Lines ELSE {<<112>>, <<120>> \o SGR(<<49, 59, 51, 50>>) \o <<121>>})
+Init == L \in [Names3 -> Vals \cup {<<255>>}] /\ line \in (IF Pools = "full" THEN Lines ELSE {<<112>>, <<120>> \o SGR(<<49, 59, 51, 50>>) \o <<121>>, SGR8(<<51, 49>>) \o <<114>> \o SGR8(<<48>>)})
         /\ stage \in Stages /\ pc = "gen"
         /\ (stage.t = "decolorize" \/ line = <<112>> \/ Pools = "full")
 Attrs == LET present == {n \in Names3 : L[n] # <<255>>}
